@@ -128,6 +128,20 @@ out = (samples, logps)
         sib[cls] = nzq.canon(inner[1]) if isinstance(inner, tuple) and inner[0] == "call" else None
     s.ob("C15.3", "siblings(SquashedNormal, SquashedMultivariateNormalDiag)", len(sib) == 2 and len(set(sib.values())) == 1 and None not in sib.values(),
          "both squashed classes build the same kind of chain", "", key="squash-sibling", detail=str({k: show_term(v, 60) for k, v in sib.items()}))
+    # end-to-end: the SAC policy squashes onto ITS action space (keyword alignment high/low)
+    bp = s.builder(inline=set())
+    cases = set()
+    for p in live(s.paths(bp, "MLPSACPolicy", "_get_distribution")):
+        r = p.ret
+        okr = isinstance(r, tuple) and r[0] == "record" and r[1].split(".")[-1] in ("SquashedNormal", "SquashedMultivariateNormalDiag")
+        f = fields(r) if okr else {}
+        cases.add(r[1].split(".")[-1] if okr else None)
+        s.ob("C15.3", f"MLPSACPolicy._get_distribution[{r[1].split('.')[-1] if okr else '?'}]",
+             okr and f.get("arg:high") == ("attr", ("attr", self_, "action_space"), "high") and f.get("arg:low") == ("attr", ("attr", self_, "action_space"), "low"),
+             "the squashed law is built with high=action_space.high and low=action_space.low (not interchanged)", s.loc("MLPSACPolicy", "_get_distribution"), key="squash-bounds",
+             detail=show(r, maxlen=200), necessary_for="samples and the mode of the SAC policy lie within the action space's [low, high]")
+    if cases != {"SquashedNormal", "SquashedMultivariateNormalDiag"}:
+        raise AnalysisError(f"MLPSACPolicy._get_distribution: expected scalar and vector cases, got {cases}")
     # ---------------------------------------------------------------- C15.4
     ci, dc, fn = s.method("AbstractTransformedDistribution", "mode")
     loc = s.loc("AbstractTransformedDistribution", "mode")
@@ -149,5 +163,5 @@ out = (samples, logps)
         okh = htype == "NotImplementedError" and len(rets_h) == 1 and bm.ev(rets_h[0].value, env, ctx) == want
         s.ob("C15.4", "AbstractTransformedDistribution.mode", okh, "on NotImplementedError the mode falls back to bijector.forward(base.mode())", loc, key="mode-fallback",
              detail=ast.unparse(h)[:200], necessary_for="the mode of a squashed law lies in the support [low, high]")
-    for r_, n_ in (("C15.1", 8), ("C15.2", 9), ("C15.3", 7), ("C15.4", 3)):
+    for r_, n_ in (("C15.1", 8), ("C15.2", 9), ("C15.3", 9), ("C15.4", 3)):
         s.floor(r_, n_)
